@@ -102,6 +102,41 @@ Proof.
   unfold R in O0, O1, O2, O3, O4, O5, O6, O7.
   rewrite O0, O1, O2, O3, O4, O5, O6, O7. rewrite !s16_w16_sw. reflexivity.
 Qed.
+(* the same, on bit patterns (what pass 2 of the kernel consumes) *)
+Theorem fdct1_ifast_pat_partial d : length d = 8%nat -> Forall in14 (c_operands d) ->
+  fdct1 asm_alg (map w16 d) = map w16 (fdct1 c_alg d).
+Proof.
+  intros Hl Hop.
+  destruct d as [|d0 [|d1 [|d2 [|d3 [|d4 [|d5 [|d6 [|d7 [|? ?]]]]]]]]]; try discriminate.
+  cbn [c_operands] in Hop.
+  repeat match goal with H : Forall _ (_ :: _) |- _ => inversion H; clear H; subst end.
+  unfold in14 in *.
+  cbn [map fdct1 asm_alg c_alg A_add A_sub A_mul1 A_mul_add A_mul_sub].
+  assert (I0 : R d0 (w16 d0)) by reflexivity. assert (I1 : R d1 (w16 d1)) by reflexivity.
+  assert (I2 : R d2 (w16 d2)) by reflexivity. assert (I3 : R d3 (w16 d3)) by reflexivity.
+  assert (I4 : R d4 (w16 d4)) by reflexivity. assert (I5 : R d5 (w16 d5)) by reflexivity.
+  assert (I6 : R d6 (w16 d6)) by reflexivity. assert (I7 : R d7 (w16 d7)) by reflexivity.
+  pose proof (R_add _ _ _ _ I0 I7) as T0. pose proof (R_sub _ _ _ _ I0 I7) as T7.
+  pose proof (R_add _ _ _ _ I1 I6) as T1. pose proof (R_sub _ _ _ _ I1 I6) as T6.
+  pose proof (R_add _ _ _ _ I2 I5) as T2. pose proof (R_sub _ _ _ _ I2 I5) as T5.
+  pose proof (R_add _ _ _ _ I3 I4) as T3. pose proof (R_sub _ _ _ _ I3 I4) as T4.
+  pose proof (R_add _ _ _ _ T0 T3) as T10. pose proof (R_sub _ _ _ _ T0 T3) as T13.
+  pose proof (R_add _ _ _ _ T1 T2) as T11. pose proof (R_sub _ _ _ _ T1 T2) as T12.
+  pose proof (R_add _ _ _ _ T10 T11) as O0. pose proof (R_sub _ _ _ _ T10 T11) as O4.
+  pose proof (R_mul_add _ _ _ _ 0%nat ltac:(lia) T12 T13 ltac:(assumption)) as Z1.
+  pose proof (R_add _ _ _ _ T13 Z1) as O2. pose proof (R_sub _ _ _ _ T13 Z1) as O6.
+  pose proof (R_add _ _ _ _ T4 T5) as U10. pose proof (R_add _ _ _ _ T5 T6) as U11. pose proof (R_add _ _ _ _ T6 T7) as U12.
+  pose proof (R_mul_sub _ _ _ _ 1%nat ltac:(lia) U10 U12 ltac:(assumption)) as Z5.
+  pose proof (R_mul1 _ _ 2%nat ltac:(lia) U10 ltac:(assumption)) as M2.
+  pose proof (R_mul1 _ _ 3%nat ltac:(lia) U12 ltac:(assumption)) as M4.
+  pose proof (R_mul1 _ _ 0%nat ltac:(lia) U11 ltac:(assumption)) as Z3.
+  pose proof (R_add _ _ _ _ M2 Z5) as Z2. pose proof (R_add _ _ _ _ M4 Z5) as Z4.
+  pose proof (R_add _ _ _ _ T7 Z3) as Z11. pose proof (R_sub _ _ _ _ T7 Z3) as Z13.
+  pose proof (R_add _ _ _ _ Z13 Z2) as O5. pose proof (R_sub _ _ _ _ Z13 Z2) as O3.
+  pose proof (R_add _ _ _ _ Z11 Z4) as O1. pose proof (R_sub _ _ _ _ Z11 Z4) as O7.
+  unfold R in O0, O1, O2, O3, O4, O5, O6, O7.
+  rewrite O0, O1, O2, O3, O4, O5, O6, O7. reflexivity.
+Qed.
 
 (* a sufficient input condition: eight values of magnitude <= 1023 (pass 1 on samples always) *)
 Lemma sw_id x : -32768 <= x < 32768 -> sw x = x.
@@ -137,3 +172,92 @@ Example fdct_ifast_nonvacuous :
   let blk := map (fun i => (i * 7) mod 41 - 20) (map Z.of_nat (seq 0 64)) in
   asm_fdct_ifast blk = c_fdct_ifast blk /\ nth 0 (c_fdct_ifast blk) 0 = -42.
 Proof. vm_compute. split; reflexivity. Qed.
+
+(* ---- the whole 8x8 transform: equal whenever the C computation stays within 14 bits at every multiply ---- *)
+Lemma map2_map_l {A B C D} (g : A -> B) (h : C -> D) (f : A -> C -> C) (f' : B -> D -> D) a b :
+  (forall x y, h (f x y) = f' (g x) (h y)) -> map h (map2 f a b) = map2 f' (map g a) (map h b).
+Proof.
+  intros H. revert b. induction a as [|x a IH]; intros [|y b]; try reflexivity.
+  unfold map2 in *. cbn. rewrite H. f_equal. apply IH.
+Qed.
+Lemma transpose_map (g : Z -> Z) m : transpose (map (map g) m) = map (map g) (transpose m).
+Proof.
+  induction m as [|r t IH]; [reflexivity|].
+  cbn [map transpose]. rewrite IH. symmetry.
+  apply (map2_map_l g (map g) (fun x col => x :: col) (fun x col => x :: col)). reflexivity.
+Qed.
+Lemma in14b_spec v : in14b v = true -> in14 v.
+Proof. unfold in14b, in14. lia. Qed.
+Lemma forallb_in14 l : forallb in14b l = true -> Forall in14 l.
+Proof. intros H. apply Forall_forall. intros x Hx. rewrite forallb_forall in H. apply in14b_spec, H, Hx. Qed.
+Lemma fdct1_length8 (A : alg) d : length d = 8%nat -> length (fdct1 A d) = 8%nat.
+Proof. intros H. destruct d as [|d0 [|d1 [|d2 [|d3 [|d4 [|d5 [|d6 [|d7 [|? ?]]]]]]]]]; try discriminate. reflexivity. Qed.
+
+Lemma pass_eq rows : Forall (fun r => length r = 8%nat) rows ->
+  forallb (fun r => forallb in14b (c_operands r)) rows = true ->
+  map (fdct1 asm_alg) (map (map w16) rows) = map (map w16) (map (fdct1 c_alg) rows).
+Proof.
+  intros HL HW. induction HL as [|r t Hr Ht IH]; [reflexivity|].
+  cbn [forallb] in HW. apply andb_prop in HW. destruct HW as [H1 H2].
+  cbn [map]. rewrite IH by assumption. f_equal.
+  apply fdct1_ifast_pat_partial; [assumption | apply forallb_in14; assumption].
+Qed.
+
+Lemma transpose_len8 m : Forall (fun r => length r = 8%nat) m -> Forall (fun r => length r = length m) (transpose m) /\ length (transpose m) = 8%nat.
+Proof.
+  induction 1 as [|r t Hr Ht IH]; [split; [repeat constructor | reflexivity]|].
+  destruct IH as [IH1 IH2]. cbn [transpose length].
+  destruct r as [|r0 [|r1 [|r2 [|r3 [|r4 [|r5 [|r6 [|r7 [|? ?]]]]]]]]]; try discriminate.
+  destruct (transpose t) as [|c0 [|c1 [|c2 [|c3 [|c4 [|c5 [|c6 [|c7 [|? ?]]]]]]]]]; try discriminate.
+  repeat match goal with H : Forall _ (_ :: _) |- _ => inversion H; clear H; subst end.
+  unfold map2. cbn. split; [|reflexivity]. repeat constructor; cbn; congruence.
+Qed.
+
+Theorem fdct_ifast_eq_partial blk : length blk = 64%nat -> c_wraps14 blk = false ->
+  asm_fdct_ifast blk = c_fdct_ifast blk.
+Proof.
+  intros HL HW. unfold c_wraps14 in HW. apply negb_false_iff in HW. apply andb_prop in HW. destruct HW as [W1 W2].
+  unfold asm_fdct_ifast, c_fdct_ifast, fdct2.
+  assert (Hrows : Forall (fun r => length r = 8%nat) (chunk8 8 blk)).
+  { do 65 (destruct blk as [|? blk]; try discriminate). cbn. repeat constructor. }
+  assert (Hch : chunk8 8 (map w16 blk) = map (map w16) (chunk8 8 blk)).
+  { do 65 (destruct blk as [|? blk]; try discriminate). reflexivity. }
+  rewrite Hch. rewrite pass_eq by assumption. rewrite transpose_map.
+  set (p1 := map (fdct1 c_alg) (chunk8 8 blk)) in *.
+  assert (Hp1 : Forall (fun r => length r = 8%nat) p1).
+  { unfold p1. apply Forall_forall. intros r Hr. apply in_map_iff in Hr. destruct Hr as (x & <- & Hx).
+    apply fdct1_length8. rewrite Forall_forall in Hrows. apply Hrows, Hx. }
+  assert (Hlen : length p1 = 8%nat).
+  { unfold p1. rewrite map_length. do 65 (destruct blk as [|? blk]; try discriminate). reflexivity. }
+  destruct (transpose_len8 p1 Hp1) as [Ht _]. rewrite Hlen in Ht.
+  rewrite pass_eq by assumption. rewrite transpose_map.
+  rewrite concat_map. rewrite map_map.
+  rewrite <- (map_id (transpose (map (fdct1 c_alg) (transpose p1)))) at 2.
+  f_equal. apply map_ext_in. intros r Hr. rewrite map_map.
+  rewrite <- (map_id r) at 2. apply map_ext_in. intros v Hv.
+  (* every value of the C result is a stored short *)
+  assert (Hv' : exists e, v = sw e).
+  { clear - Hr Hv Ht.
+    assert (Hall : Forall (fun row => Forall (fun v => exists e, v = sw e) row) (map (fdct1 c_alg) (transpose p1))).
+    { apply Forall_forall. intros row Hrow. apply in_map_iff in Hrow. destruct Hrow as (d & <- & Hd).
+      rewrite Forall_forall in Ht. specialize (Ht d Hd).
+      destruct d as [|d0 [|d1 [|d2 [|d3 [|d4 [|d5 [|d6 [|d7 [|? ?]]]]]]]]]; try discriminate.
+      cbn [fdct1 c_alg A_add A_sub A_mul1 A_mul_add A_mul_sub]. unfold c_mul. repeat constructor; eexists; reflexivity. }
+    (* transposition only moves values around *)
+    assert (Hin : forall m : list (list Z), Forall (fun row => Forall (fun v => exists e, v = sw e) row) m ->
+                  Forall (fun row => Forall (fun v => exists e, v = sw e) row) (transpose m)).
+    { induction 1 as [|x t Hx Hm IH]; [cbn; repeat constructor|].
+      cbn [transpose]. unfold map2. apply Forall_forall. intros row Hrow. apply in_map_iff in Hrow.
+      destruct Hrow as ((a, col) & <- & Hp). cbn [fst snd]. constructor.
+      - rewrite Forall_forall in Hx. apply Hx. eapply in_combine_l; eauto.
+      - rewrite Forall_forall in IH. apply IH. eapply in_combine_r; eauto. }
+    specialize (Hin _ Hall). rewrite Forall_forall in Hin. specialize (Hin r Hr). rewrite Forall_forall in Hin. apply Hin, Hv. }
+  destruct Hv' as [e ->]. apply s16_w16_sw.
+Qed.
+
+(* horizontal structure never wraps with a 2-bit pre-shift: a block whose rows are constant
+   (any 8 levels) -- e.g. 2-on/2-off horizontal stripes of full contrast -- is safe *)
+Example rowconst_safe :
+  let blk := concat (map (fun v => repeat v 8) [127; 127; -128; -128; 127; 127; -128; -128]) in
+  c_wraps14 blk = false /\ asm_fdct_ifast blk = c_fdct_ifast blk /\ c_wraps14 stripes = true.
+Proof. vm_compute. repeat split; reflexivity. Qed.
